@@ -68,7 +68,29 @@ fn outcome(s: String) {
     *OUTCOMES.lock().unwrap().entry(s).or_insert(0) += 1;
 }
 
+/// counts the live heap blocks that have exactly the size of the recorder double (an odd size nothing else asks for):
+/// the library boxes a recorder it installs, and must not keep a box for one it rejects
+struct CountingAlloc;
+static R_BLOCKS: std::sync::atomic::AtomicIsize = std::sync::atomic::AtomicIsize::new(0);
+unsafe impl std::alloc::GlobalAlloc for CountingAlloc {
+    unsafe fn alloc(&self, l: std::alloc::Layout) -> *mut u8 {
+        if l.size() == std::mem::size_of::<R>() {
+            R_BLOCKS.fetch_add(1, StdOrdering::SeqCst);
+        }
+        std::alloc::System.alloc(l)
+    }
+    unsafe fn dealloc(&self, p: *mut u8, l: std::alloc::Layout) {
+        if l.size() == std::mem::size_of::<R>() {
+            R_BLOCKS.fetch_sub(1, StdOrdering::SeqCst);
+        }
+        std::alloc::System.dealloc(p, l)
+    }
+}
+#[global_allocator]
+static GLOBAL: CountingAlloc = CountingAlloc;
+
 struct R {
+    pad: [u8; 2963],
     id: usize,
     magic: u64,
     hits: std::sync::Arc<StdAtomicUsize>,
@@ -111,6 +133,7 @@ fn thin(r: &'static dyn Recorder) -> usize {
 fn cell_scenario(pb: Option<usize>, installers: usize, readers: usize, handoff: bool) {
     builder(pb).check(move || {
         EXECS.fetch_add(1, StdOrdering::Relaxed);
+        let blocks0 = R_BLOCKS.load(StdOrdering::SeqCst);
         let cell = Arc::new(RecorderOnceCell::new());
         let hits = std::sync::Arc::new(StdAtomicUsize::new(0));
         let drops: Vec<_> = (0..installers).map(|_| std::sync::Arc::new(StdAtomicUsize::new(0))).collect();
@@ -121,7 +144,7 @@ fn cell_scenario(pb: Option<usize>, installers: usize, readers: usize, handoff: 
                 let hits = hits.clone();
                 let d = drops[i].clone();
                 loom::thread::spawn(move || {
-                    let r = R { id: i, magic: 0xfeed_0000 + i as u64, hits, drops: d.clone() };
+                    let r = R { pad: [0; 2963], id: i, magic: 0xfeed_0000 + i as u64, hits, drops: d.clone() };
                     match cell.set(r) {
                         Ok(()) => true,
                         Err(e) => {
@@ -194,6 +217,8 @@ fn cell_scenario(pb: Option<usize>, installers: usize, readers: usize, handoff: 
                 assert_eq!((h >> (8 * i)) & 0xff, 0, "sig=emission-reached-losing-recorder: an emission reached a recorder that lost the installation race");
             }
         }
+        // the installed recorder lives in one heap block for the rest of the process; a rejected one leaves none behind
+        assert_eq!(R_BLOCKS.load(StdOrdering::SeqCst) - blocks0, 1, "sig=rejected-recorder-leaked: recorder-sized heap blocks left behind by the installation race (1 = the installed recorder's)");
         outcome(format!("winner={} readers={:?}", winner, logs));
     });
 }
@@ -207,15 +232,16 @@ fn cell_preinstalled(pb: Option<usize>, late: usize, readers: usize) {
         let cell = Arc::new(RecorderOnceCell::new());
         let hits = std::sync::Arc::new(StdAtomicUsize::new(0));
         let drops: Vec<_> = (0..late + 1).map(|_| std::sync::Arc::new(StdAtomicUsize::new(0))).collect();
-        assert!(cell.set(R { id: 0, magic: 0xfeed_0000, hits: hits.clone(), drops: drops[0].clone() }).is_ok(), "sig=first-install-refused: first install refused");
+        assert!(cell.set(R { pad: [0; 2963], id: 0, magic: 0xfeed_0000, hits: hits.clone(), drops: drops[0].clone() }).is_ok(), "sig=first-install-refused: first install refused");
         let first = thin(cell.try_load().expect("sig=installed-recorder-invisible: installed recorder must be visible after install returned"));
+        let blocks0 = R_BLOCKS.load(StdOrdering::SeqCst);
         let inst: Vec<_> = (1..=late)
             .map(|i| {
                 let cell = cell.clone();
                 let hits = hits.clone();
                 let d = drops[i].clone();
                 loom::thread::spawn(move || {
-                    let r = R { id: i, magic: 0xfeed_0000 + i as u64, hits, drops: d.clone() };
+                    let r = R { pad: [0; 2963], id: i, magic: 0xfeed_0000 + i as u64, hits, drops: d.clone() };
                     match cell.set(r) {
                         Ok(()) => panic!("sig=install-not-exactly-once: a second install succeeded"),
                         Err(e) => {
@@ -251,6 +277,7 @@ fn cell_preinstalled(pb: Option<usize>, late: usize, readers: usize) {
         assert_eq!(h & 0xff, 2 * readers, "sig=emission-missed-global-recorder: not every emission reached the installed recorder");
         assert_eq!(h >> 8, 0, "sig=emission-reached-losing-recorder: an emission reached a recorder that was never installed");
         assert_eq!(drops[0].load(StdOrdering::SeqCst), 0, "sig=installed-recorder-dropped: installed recorder was dropped");
+        assert_eq!(R_BLOCKS.load(StdOrdering::SeqCst) - blocks0, 0, "sig=rejected-recorder-leaked: recorder-sized heap blocks left behind by rejected installations");
         outcome(format!("hits={:#x}", h));
     });
 }
